@@ -94,9 +94,17 @@ class Cfg:
 
 
 def ensure_seam():
+    ensure_shadows()
     r = subprocess.run([sys.executable, os.path.join(HARNESS, "seam", "gen_seam.py")], capture_output=True, text=True)
     if r.returncode != 0:
         die("seam generation failed:\n" + r.stdout + r.stderr)
+
+
+def ensure_shadows():
+    """Regenerate the shadow crates (ARMv8 AES, fixslice32, NEON Kuznyechik) from /repo's current working tree."""
+    r = subprocess.run([sys.executable, os.path.join(HARNESS, "seam", "gen_shadows.py")], capture_output=True, text=True)
+    if r.returncode != 0:
+        die("shadow generation failed:\n" + r.stdout + r.stderr)
 
 
 class BuildFailure(Exception):
